@@ -79,6 +79,11 @@ def _info_job(c):
 # -------------------------------------------------------------------------- node runs
 
 
+# the time zone is part of the pinned environment, but which zone is pinned is a seeded choice: a host that prints
+# times in UTC while the others print local time is invisible under TZ=UTC
+TZ_CHOICES = ["JST-9", "EST5EDT", "NPT-5:45", "JST-9", "EST5EDT", "UTC"]
+
+
 def _run_node(exe, jobs, tag, results, errors):
     spec = os.path.join(W["rundir"], "jobs-%s.json" % tag)
     outp = os.path.join(W["rundir"], "out-%s.json" % tag)
@@ -86,8 +91,8 @@ def _run_node(exe, jobs, tag, results, errors):
         json.dump({"jobs": jobs, "rundir": W["rundir"]}, f)
     try:
         p = subprocess.run([exe, "-B", "-s", os.path.join(core.VERIF_DIR, "sim", "node.py"), spec, outp],
-                           env=core.child_env(), stdout=subprocess.PIPE, stderr=subprocess.PIPE,
-                           timeout=60 + 30 * len(jobs))
+                           env=core.child_env({"TZ": W.get("tz", "UTC")}), stdout=subprocess.PIPE,
+                           stderr=subprocess.PIPE, timeout=60 + 30 * len(jobs))
         if p.returncode != 0:
             errors.append("node %s exited %d: %s" % (tag, p.returncode, p.stderr.decode(errors="replace")[-500:]))
             return
@@ -391,6 +396,7 @@ def prepare(master, tier, cfg):
         if p.returncode != 0:
             raise core.HarnessError("host %s cannot import xdis: %s" % (tag, p.stderr.decode()[-300:]))
         W["host_magic"][tag] = int(p.stdout.decode().strip().splitlines()[-1])
+    W["tz"] = core.SeedStream(core.derive_seed(master, PROP, 0, "tz")).choice(TZ_CHOICES)
     produced = corpus.produce_corpus(master, cfg["produce"][0], cfg["produce"][1])
     bases = corpus.repo_corpus() + produced
     bases += magic_twins(master, produced)
@@ -503,7 +509,7 @@ def detail_for(bi, divs, workers):
 
 # ---------------------------------------------------------------------- check proper
 
-NORMALISERS = ["code_repr", "set_order"]
+NORMALISERS = ["code_repr", "set_order", "unicode_escape"]
 
 
 def _text_partitions(rows, comp, enabled):
@@ -517,14 +523,18 @@ def _text_partitions(rows, comp, enabled):
             recs.append(t)
     if len(set(t["d"] for t in recs)) <= 1:
         return False, []
-    trials = [["code_repr"], ["set_order"], ["code_repr", "set_order"]]
+    names_all = ["code_repr", "set_order", "unicode_escape"]
+    trials = []
+    for mask in sorted(range(1, 1 << len(names_all)), key=lambda m: (bin(m).count("1"), m)):
+        trials.append([n for k, n in enumerate(names_all) if mask & (1 << k)])
     for names in trials:
         if not all(n in enabled for n in names):
             continue
         key = "n:" + "+".join(names)
         if all(key in t for t in recs) and len(set(t[key] for t in recs)) == 1:
-            if "set_order" in names:
-                # D6 explains differences between HOSTS only: the arms of one host must already agree without it
+            if "set_order" in names or "unicode_escape" in names:
+                # D6 / D20 explain differences between HOSTS only: the arms of one host must already agree
+                # without them
                 base_key = "n:code_repr" if "code_repr" in names else "d"
                 per_host = {}
                 for host, arm, native, cv, r in rows:
@@ -629,7 +639,12 @@ def main(opts):
     by_class = {}
     for bi, d in viols:
         comp = d["component"]
-        cls = "%s|%s" % (comp if not comp.startswith("text:") else "text", d["partition"])
+        kind = _file_kind(W["bases"][bi])
+        if kind == "dup" and comp == "text:xasm":
+            # artificial files (equal-but-distinct code constants) in the address-named xasm format: own class
+            cls = "text:xasm|%s|dup" % d["partition"]
+        else:
+            cls = "%s|%s" % (comp if not comp.startswith("text:") else "text", d["partition"])
         by_class.setdefault(cls, []).append((bi, d))
     n_unknown = 0
     for cls in sorted(by_class):
@@ -642,7 +657,7 @@ def main(opts):
             det = {"error": str(e)}
         known = None
         sig = {"class": cls, "component": d["component"], "partition": d["partition"],
-               "pattern": _pattern(det.get(d["component"], {}))}
+               "pattern": _pattern(det.get(d["component"], {})), "file_kind": _file_kind(b)}
         for f in findings:
             m = f.get("match", {})
             if f.get("property") == PROP and f.get("status") == "known" and "normaliser" not in m and \
@@ -680,6 +695,7 @@ def main(opts):
         "files": stats["files_compared"],
         "hosts": hosts,
         "host_magic": W["host_magic"],
+        "time_zone_of_this_run": W.get("tz"),
         "fast_path_taken_per_host": stats["fast_path_taken"],
         "fast_path_skipped_per_host": stats["fast_path_skipped"],
         "rows_with_native_code_object": stats["native_rows"],
@@ -710,8 +726,8 @@ def main(opts):
     ])
     for ln in lines:
         print(ln)
-    core.log("[C07] %d files x %d hosts, %d (file,host,arm) rows, %d listing cells, %d unexplained class(es), %.1fs" % (
-        stats["files_compared"], len(hosts), stats["arms_total"], stats["text_cells"], len(by_class), wall))
+    core.log("[C07] %d files x %d hosts, %d (file,host,arm) rows, %d listing cells, %d divergence class(es) left after the normalisers (%d not matched by a known finding), %.1fs" % (
+        stats["files_compared"], len(hosts), stats["arms_total"], stats["text_cells"], len(by_class), n_unknown, wall))
     if harness:
         core.log("[C07] HARNESS-ERROR: %s" % harness[:3])
         return core.EXIT_HARNESS
@@ -719,6 +735,13 @@ def main(opts):
         core.log("[C07] HARNESS-ERROR: %d node failures" % stats["node_failures"])
         return core.EXIT_HARNESS
     return core.EXIT_VIOLATION if n_unknown else core.EXIT_OK
+
+
+def _file_kind(b):
+    o = b.origin
+    if o.startswith("produced:"):
+        return o.rsplit(":", 1)[-1]  # ts / ch / uh / alt / dup
+    return o.split(":", 1)[0]        # repo / twin / replay
 
 
 def _p(stats, name):
